@@ -32,7 +32,8 @@
 
   Not modelled (no effect on the exit status): log lines, `println!` of the page DOM summary and of the
   extracted text (a failing write to stdout would panic in `println!`: the harness gives the binary
-  /dev/null).  `DCTDecode` is the opaque parameter `Loader.ext.dct` (never succeeds).
+  /dev/null), the `spaced` flag of extract_text, `FileInfo::file_offset` (`pdf_hdr_ofs + o`, both below the
+  file / decoded-buffer size) inside log arguments.  dump_root's `depth` labels: see `bfsD` below.  `DCTDecode` is the opaque parameter `Loader.ext.dct` (never succeeds).
   Import-free apart from the stage models.
 -/
 import Parsley.Model.Loader
@@ -207,6 +208,49 @@ def bfsFuel (defs : ObjStm.Defs) (root : Obj) : Nat :=
 /-- `dump_root(fi, ctxt, root_obj)` -/
 def dumpRoot (enc : Bool) (defs : ObjStm.Defs) (root : Obj) : Out Unit :=
   bfs enc defs (bfsFuel defs root) [root] [toTC root]
+
+/-! ### dump_root's depth labels
+
+  The queue of `dump_root` holds pairs `(object, depth : u32)`; a pushed entry gets `depth + 1`, a debug-checked
+  `u32` add that is evaluated only when an entry is pushed (lines 130, 139, 149, 171).  The label is used by the
+  (disabled) `log_obj` only and never influences control flow, so `bfs` above leaves it out.  `bfsD lim` is the
+  loop AS WRITTEN with the labels and the overflow site (`lim = depthLim = 2^32` for the code as it is);
+  Lemmas/Pipeline.lean proves `bfsD_eq_bfs`: the two agree whenever the traversal's universe has at most `lim`
+  objects (a label is always smaller than the number of processed objects), and Props/C01.lean shows on a scaled
+  instance that the site IS reachable by a long enough reference chain.  Fix C01-01 (`saturating_add`) removes
+  the site: for the fixed code `bfs` is the loop as written. -/
+
+/-- `u32::MAX + 1` -/
+def depthLim : Nat := 2 ^ 32
+
+/-- `pushNew` with the labels: `none` = `depth + 1` overflowed -/
+def pushNewD (lim d : Nat) : List Obj → List (Obj × Nat) → List TC.Obj → Option (List (Obj × Nat) × List TC.Obj)
+  | [], q, p => some (q, p)
+  | c :: t, q, p =>
+    if p.contains (toTC c) then pushNewD lim d t q p
+    else if lim ≤ d + 1 then none                                  -- attempt to add with overflow
+    else pushNewD lim d t (q ++ [(c, d + 1)]) (toTC c :: p)
+
+/-- the `while` loop with the labels -/
+def bfsD (lim : Nat) (enc : Bool) (defs : ObjStm.Defs) : Nat → List (Obj × Nat) → List TC.Obj → Out Unit
+  | 0, _, _ => .panic "dump_root: fuel"
+  | _ + 1, [], _ => .ok ()
+  | f + 1, (o, d) :: q, p =>
+    match pushNewD lim d (kidsOf defs o) q p with
+    | none => .panic "dump_root: depth + 1 overflow"
+    | some (q', p') =>
+      match o with
+      | .stream kvs sc =>
+        if !enc then
+          match decodeObjStream kvs sc with
+          | .panic s => .panic s
+          | _ => bfsD lim enc defs f q' p'
+        else bfsD lim enc defs f q' p'
+      | _ => bfsD lim enc defs f q' p'
+
+/-- `dump_root` as written before fix C01-01 -/
+def dumpRootD (enc : Bool) (defs : ObjStm.Defs) (root : Obj) : Out Unit :=
+  bfsD depthLim enc defs (bfsFuel defs root) [(root, 0)] [toTC root]
 
 /-! ## type_check_file -/
 
